@@ -63,8 +63,11 @@ def build_table(path, maxlen):
 
 
 def rand_series(rng, n):
-    kind = rng.integers(11)
-    if kind == 10:       # small wiggles next to a single enormous excursion (steps spanning more than 160 decades in ONE series)
+    kind = rng.integers(12)
+    if kind == 11:       # records in extremely small units: products of neighbouring differences underflow (their signs do not)
+        base = [rng.standard_normal(n), np.repeat(rng.integers(-3, 4, size=n), rng.integers(1, 4, size=n))[:n].astype(float)][int(rng.integers(2))]
+        x = base * float(rng.choice([1e-170, 1e-200, 2.0 ** -600, 1e-300, 3e-162]))
+    elif kind == 10:       # small wiggles next to a single enormous excursion (steps spanning more than 160 decades in ONE series)
         x = rng.standard_normal(n) * 10.0 ** rng.choice([-6.0, -9.0, -90.0])
         x[int(rng.integers(n))] = float(rng.choice([1e155, -3e158, 4e75, 1e160]))
     elif kind == 8:        # a large first sample followed by movements far below its ulp (x - x[0] is not exact)
@@ -208,6 +211,6 @@ def run(tier, seed):
         if t <= 3:
             rep.sample(meta[t])
     rep.assumptions = ["exhaustive part: integer levels 0..4, lengths 2..%d, non-constant series" % maxlen,
-                       "trace part: |differences| within [1e-100, 1e100] (no underflow of products of differences)"]
+                       "trace part: |values| up to 1e160; records in extremely small units (down to 1e-300) included"]
     return rep.finish(checker_cmd="tlc MC_Peaks / Trace_Peaks (harness/drivers/c11.py)",
                       trusted_base=["TLC 1.8", "FP.class", "TableIO.class", "harness/common.py enc"])
